@@ -440,3 +440,37 @@ Proof.
     unfold wm_raw_close, wm_wr_file_header; cbv zeta;
     match goal with |- context [if ?b then _ else _] => destruct b end; cbn; rewrite Hl; reflexivity.
 Qed.
+
+(* the file after rp_end_state: the file header rewritten, the END header appended *)
+Lemma rpp_end_state_file : forall w9, rp_flen (rp_w_io w9) = rp_len (rp_file (rp_w_io w9)) -> 32 <= rp_flen (rp_w_io w9) ->
+  exists h fe, fm_tag h = JLS_TAG_END /\ fm_payload_length h = 0 /\
+    rp_file (rp_w_io (rp_end_state w9)) =
+      wm_file_header_bytes fe ++ rp_skip 32 (rp_file (rp_w_io w9)) ++ fm_encode_chunk_header h.
+Proof.
+  intros w9 Hc H32. unfold rp_end_state. cbv zeta.
+  set (w9a := if rp_w_inplace (rp_end_seek w9) then rp_w_set_uninit (rp_end_seek w9) else rp_end_seek w9).
+  assert (A1 : rp_w_io w9a = rp_seek_end (rp_w_io w9)) by (unfold w9a; destruct (rp_w_inplace (rp_end_seek w9)); reflexivity).
+  assert (A2 : rp_c w9a = rp_rd_set_io (rp_c w9) (rp_seek_end (rp_w_io w9))) by (unfold w9a; destruct (rp_w_inplace (rp_end_seek w9)); reflexivity).
+  unfold rp_wm_base. rewrite A2. cbn [rp_io_ rp_rd_set_io rp_src_head rp_sig_head rp_ud_head].
+  set (r9 := rp_wm_raw _ _).
+  destruct (rpp_wr_end_close_log r9 (rp_src_head (rp_c w9)) (rp_sig_head (rp_c w9)) (rp_ud_head (rp_c w9))) as (h & fe & Hlog & Ht & Hl);
+    try reflexivity.
+  exists h, fe. split; [exact Ht |]. split; [exact Hl |].
+  unfold rp_commit. cbn [wm_b_raw wm_b_set_raw]. rewrite Hlog.
+  assert (P : wm_fpos r9 = rp_flen (rp_w_io w9)) by reflexivity. rewrite P.
+  rewrite A1. cbn [rp_file rp_flen rp_seek_end rp_io_set_r].
+  cbn [rp_apply_log fold_right rp_apply fst snd].
+  set (f9 := rp_file (rp_w_io w9)) in *. set (n9 := rp_flen (rp_w_io w9)) in *.
+  destruct (rpp_end_header_ok h Ht Hl) as (B32 & _).
+  assert (W1 : rp_apply_write f9 n9 n9 (fm_encode_chunk_header h) = (f9 ++ fm_encode_chunk_header h, n9 + 32)).
+  { unfold rp_apply_write. cbv zeta. rewrite N.leb_refl, N.sub_diag, B32. reflexivity. }
+  rewrite W1. cbn [fst snd].
+  assert (F32 : rp_len (wm_file_header_bytes fe) = 32).
+  { unfold wm_file_header_bytes, rp_len. now rewrite fm_encode_file_header_length. }
+  unfold rp_apply_write. cbv zeta. rewrite F32.
+  replace (n9 + 32 <=? 0) with false by (symmetry; apply N.leb_gt; lia).
+  cbn [fst rp_file]. unfold rp_take. cbn [N.to_nat firstn app].
+  replace (0 + 32) with 32 by lia.
+  rewrite !rpp_skip_eq. rewrite skipn_app.
+  replace (N.to_nat 32 - length f9)%nat with 0%nat by (unfold rp_len in Hc; lia). reflexivity.
+Qed.
